@@ -29,6 +29,7 @@ import (
 	"github.com/v-byte-cpu/sx/command/log"
 	"github.com/v-byte-cpu/sx/pkg/packet"
 	"github.com/v-byte-cpu/sx/pkg/scan"
+	"github.com/v-byte-cpu/sx/pkg/scan/icmp"
 )
 
 type vfPktCfg struct {
@@ -44,6 +45,7 @@ type vfPktCfg struct {
 	CancelAt  int       // Ctrl-C at the k-th seam event (0: never)
 	CancelErr int       // Ctrl-C when the j-th error reaches the log (0: never): by then every buffer behind a stalled log is full
 	Procs     int
+	Real      bool // frames are built by one real icmp filler shared by all builders (as the commands do), not by the harness
 }
 
 type vfPktErr struct {
@@ -73,6 +75,7 @@ type vfPkt struct {
 	settled   int64 // requests that reached a final state (error request / fill error / write end)
 	results   scan.ResultChan
 	psrc      scan.PacketSource
+	real      scan.PacketFiller
 }
 
 func (p *vfPkt) us() int { return int(time.Since(p.t0) / time.Microsecond) }
@@ -141,12 +144,20 @@ func (p *vfPkt) Fill(buf gopacket.SerializeBuffer, r *scan.Request) error {
 		p.settle()
 		return &vfPktErr{"fill", id}
 	}
-	lr := rand.New(rand.NewSource(int64(id) * 2654435761))
-	payload := make([]byte, 16+lr.Intn(80))
-	lr.Read(payload)
-	binary.BigEndian.PutUint64(payload, uint64(id))
-	if err := gopacket.SerializeLayers(buf, gopacket.SerializeOptions{}, gopacket.Payload(payload)); err != nil {
-		panic(err)
+	if p.real != nil {
+		// the frame identifies its request by its destination address (bytes 30..33 of an Ethernet/IPv4 frame)
+		r.SrcMAC, r.DstMAC = []byte{2, 0, 0, 0, 0, 1}, []byte{2, 0, 0, 0, 0, 2}
+		if err := p.real.Fill(buf, r); err != nil {
+			panic(err)
+		}
+	} else {
+		lr := rand.New(rand.NewSource(int64(id) * 2654435761))
+		payload := make([]byte, 16+lr.Intn(80))
+		lr.Read(payload)
+		binary.BigEndian.PutUint64(payload, uint64(id))
+		if err := gopacket.SerializeLayers(buf, gopacket.SerializeOptions{}, gopacket.Payload(payload)); err != nil {
+			panic(err)
+		}
 	}
 	cp := make([]byte, len(buf.Bytes()))
 	copy(cp, buf.Bytes())
@@ -167,7 +178,13 @@ func (w *vfPktRW) WritePacketData(pkt []byte) error {
 	entry := make([]byte, len(pkt))
 	copy(entry, pkt)
 	id, same := 0, false
-	if len(entry) >= 8 {
+	if p.real != nil && len(entry) >= 34 {
+		cand := vfAppID(net.IP(entry[30:34]))
+		if b, ok := p.built.Load(cand); ok {
+			id = cand
+			same = bytes.Equal(b.([]byte), entry)
+		}
+	} else if len(entry) >= 8 {
 		cand := int(binary.BigEndian.Uint64(entry))
 		if b, ok := p.built.Load(cand); ok {
 			id = cand
@@ -321,6 +338,10 @@ func vfRunPkt(cfg vfPktCfg, seed int64) []map[string]interface{} {
 	cmdCtx, cancelCmd := context.WithCancel(context.Background())
 	p.cancelCmd = cancelCmd
 	defer cancelCmd()
+	if cfg.Real {
+		io := &icmpCmdOpts{ipTTL: 64, ipFlags: 2, ipProtocol: 1, icmpType: 8, icmpPayload: []byte("vf-real-filler")}
+		p.real = icmp.NewPacketFiller(io.getICMPOptions()...)
+	}
 	p.results = scan.NewResultChan(cmdCtx, 1000)
 	p.psrc = scan.NewPacketSource(p, scan.NewPacketMultiGenerator(p, cfg.W))
 	engine := &vfPktEngine{scan.SetupPacketEngine(&vfPktRW{p: p}, p), p}
@@ -375,6 +396,13 @@ func TestVfPktRunner(t *testing.T) {
 		if k%5 == 4 {
 			c.ReqErr, c.FillErr, c.WriteErr = 0.2, 0.1, 0.2
 		}
+		out.write(vfRunPkt(c, seed+int64(runs)))
+		runs++
+	}
+	// C07 with a real filler: one icmp filler shared by all builders, as the commands wire it; many requests, 8-16 builders
+	nreal, _ := strconv.Atoi(os.Getenv("VF_REAL_RUNS"))
+	for k := 0; k < nreal; k++ {
+		c := vfPktCfg{N: 2000 + rnd.Intn(2000), W: []int{8, 16}[k%2], Procs: 16, ExitDelay: 50 * time.Millisecond, Real: true}
 		out.write(vfRunPkt(c, seed+int64(runs)))
 		runs++
 	}
